@@ -61,8 +61,54 @@ def run(tier, seed, replay):
         for kind, s in edits(rng, seq, npool):
             lines.append("proto " + fmt(s, names))
             meta.append((kind, b))
+    # the same through real apps: registrations made with the public App API (RepliconPlugins under the default protocol check)
+    ITEMS = ["r0", "r1", "r2", "p0:2", "p1:5", "b01", "b10", "b12", "b012", "ce0", "ce1", "ct0", "se0", "se1", "st0", "ie0", "it1"]
+    app_lines, app_meta = [], []
+    napp = 25 if tier == "quick" else 300
+    for b in range(napp):
+        seq = []
+        used = set()
+        for _ in range(rng.randrange(0, 6)):
+            it = rng.choice(ITEMS)
+            # an event type can be registered only once per direction; components may repeat in different rules
+            key = it[:2] + it[2:3] if it[0] in "csi" else None
+            evkey = ("c" if it[0] == "c" else "s") + it[-1] if it[0] in "csi" else None
+            if evkey and evkey in used:
+                continue
+            if evkey:
+                used.add(evkey)
+            seq.append(it)
+        app_lines.append("proto_app " + (",".join(seq) or "-"))
+        app_meta.append(("base", b, seq))
+        app_lines.append("proto_app " + (",".join(seq) or "-"))
+        app_meta.append(("again", b, seq))
+        for i in range(len(seq) - 1):
+            if seq[i] != seq[i + 1]:
+                s2 = list(seq)
+                s2[i], s2[i + 1] = s2[i + 1], s2[i]
+                app_lines.append("proto_app " + ",".join(s2))
+                app_meta.append(("swap", b, s2))
+        for i in range(len(seq)):
+            s2 = seq[:i] + seq[i + 1:]
+            app_lines.append("proto_app " + (",".join(s2) or "-"))
+            app_meta.append(("delete", b, s2))
+    app_out = run_lines(harness_bin("kernels"), app_lines, shards=8) if app_lines else []
+    app_model_lines = ["proto " + (o.split(" ", 1)[1] if " " in o else "-") for o in app_out]
+    app_model = run_lines(os.path.join(OCAML, "driver"), app_model_lines, shards=8) if app_lines else []
     impl, model = kernel_pair(lines, shards=8)
     diverged, oracle_fail, nontriv = [], [], set()
+    app_base = {}
+    for l, o, m, (k, bi, seq) in zip(app_lines, app_out, app_model, app_meta):
+        h = o.split(" ", 1)[0]
+        if h != m:
+            diverged.append(dict(request=l, implementation=h, model=m, note="hash of a real App vs model hash of the same registration stream"))
+        if k == "base":
+            app_base[bi] = (h, l)
+        elif k == "again":
+            if h != app_base[bi][0]:
+                oracle_fail.append(dict(request=l, implementation=h, first=app_base[bi][0], why="two apps performing the same registrations computed different protocol hashes"))
+        elif h == app_base[bi][0]:
+            oracle_fail.append(dict(base=app_base[bi][1], edited=l, edit=k, implementation=h, why="apps whose registration sequences differ computed the same protocol hash"))
     base_hash = {}
     kinds = {}
     for l, a, b, (k, bi) in zip(lines, impl, model, meta):
@@ -78,8 +124,9 @@ def run(tier, seed, replay):
             if a == base_hash[bi][0] or a in ("PANIC", "<missing>") or a.startswith("NAME"):
                 oracle_fail.append(dict(base=base_hash[bi][1][:400], edited=l[:400], edit=k, implementation=a, why="a single-step edit of the registration sequence left the protocol hash unchanged (or the hasher failed)"))
             nontriv.add(l)
-    rep.cov["evaluations"] = len(lines)
-    rep.cov["traces_validated_against_impl"] = len(lines)
+    rep.cov["evaluations"] = len(lines) + len(app_lines)
+    rep.cov["real_app_registrations"] = len(app_lines)
+    rep.cov["traces_validated_against_impl"] = len(lines) + len(app_lines)
     rep.cov["distinct_nontrivial"] = len(nontriv)
     rep.cov["rule"] = ("registration sequences (0..8 items over the 8 ProtocolPart kinds, priorities at byte boundaries, a pool of %d type names incl. generic and std types) fed to the real "
                        "ProtocolHasher entry points through the hook; each base sequence hashed twice; every single-step edit (swap, insert, delete, kind, priority bit, type) must change "
